@@ -189,9 +189,11 @@ mod verif_harness {
         };
     }
 
-    // unwind bound: the longest loop is the harness' fill of V (2*max_d(n+3,m+2) cells) resp. the
-    // vec![0; 2*max_d] initialisation; every loop in find_middle_snake runs at most max(d_max, n, m)+1
-    // times.  Unwinding assertions are on, so too small a bound is reported, never silently accepted.
+    // unwind bound (REQUIRED: without one the 3x3 harness did not finish in 20 min, with it ~100 s):
+    // max(max_d(n,m), n+2, m+3) + 2, i.e. the harness' slice fills and every loop of find_middle_snake
+    // (d < d_max, at most d+1 values of k, prefix/suffix scans of at most max(n,m) items); stale harnesses:
+    // 2*max_d(n+3,m+2) + 2 for the fill of V.  Unwinding assertions are on, so a bound that is too small
+    // is reported (standins.py: "undetermined" => inconclusive), never silently accepted.
     snake_basic!(snake_basic_1_1, 1, 1, 6);
     snake_basic!(snake_basic_1_2, 1, 2, 7);
     snake_basic!(snake_basic_1_3, 1, 3, 8);
